@@ -21,6 +21,7 @@ from __future__ import annotations
 import ast
 
 from ..repo import AnalysisError, own_nodes
+from .roles import dispatcher_roles, schedule_attr, machine_id_attr
 from .common import DISPATCHER, resolve_root
 
 MANIFEST = {
@@ -54,10 +55,13 @@ def _rel(e):
 
 def _is_readiness(ev):
     t = _CTX[0].norm.xtext(ev.fi, ev.node) if _CTX else ev.data.get("text", "")
-    return ev.kind == "branch" and ("is_operation_ready" in t or ("_job_next_operation_index" in t and "position_in_job" in t))
+    idx = dispatcher_roles(_CTX[0])["job_index"] if _CTX else "_job_next_operation_index"
+    return ev.kind == "branch" and ("is_operation_ready" in t or ((idx in t or "job_next_operation_index" in t) and "position_in_job" in t))
 
 
 _CTX: list = []
+_TRACKING: set = set()
+_MID = ["_machine_id"]
 
 
 def _is_eligibility(ev):
@@ -79,6 +83,10 @@ def run(ctx):
     chk.rule("R01.c", "tracking vectors written only after Schedule.add returned")
     chk.rule("R01.d", "order relation previous.end_time <= new.start_time against the last operation of the same machine (add) / the predecessor (check_schedule)")
     _CTX[:] = [ctx]
+    R = dispatcher_roles(ctx)
+    _TRACKING.clear()
+    _TRACKING.update({R["mach_free"], R["job_index"], R["job_free"]})
+    _MID[0] = machine_id_attr(ctx)
     disp = repo.find_class(DISPATCHER)
     sched = _sched_cls(ctx)
     sop = repo.find_class("ScheduledOperation")
@@ -172,7 +180,7 @@ def run(ctx):
         for i, e in enumerate(evs):
             if e.kind == "write" and not e.data.get("local"):
                 root, chain, fr = resolve_root(e)
-                if fr is not None and fr.parent is None and root == "self" and chain and chain[0].startswith(("_machine_next", "_job_next")):
+                if fr is not None and fr.parent is None and root == "self" and chain and chain[0] in _TRACKING:
                     if i_exit is None or i < i_exit:
                         bad = True
                         chk.violation(
@@ -241,7 +249,7 @@ def run(ctx):
             for i, e in enumerate(p.events):
                 if e.kind == "write" and not e.data.get("local"):
                     root, chain, fr = resolve_root(e)
-                    if fr is not None and fr.parent is None and root == "self" and chain == ["_schedule"]:
+                    if fr is not None and fr.parent is None and root == "self" and chain == [schedule_attr(ctx)]:
                         st = e.node
                         val = getattr(st, "value", None)
                         checked = any(
@@ -285,7 +293,7 @@ def _eligibility_consistent(ev):
     # the same name must be what is written to self._machine_id in this frame,
     # or be the machine parameter of the constructor
     for m in own_nodes(fi.node):
-        if isinstance(m, ast.Assign) and any(isinstance(t, ast.Attribute) and t.attr == "_machine_id" for t in m.targets):
+        if isinstance(m, ast.Assign) and any(isinstance(t, ast.Attribute) and t.attr == _MID[0] for t in m.targets):
             if isinstance(m.value, ast.Name) and m.value.id == left.id:
                 return True
     return left.id in fi.params and "machine" in left.id
@@ -299,9 +307,11 @@ def _append_consistent(app, add):
         return None  # helper inside Schedule: shape checked by R01.b only
     if not (call.args and isinstance(call.args[0], ast.Name) and call.args[0].id == p):
         return "the object appended is not the scheduled operation that was checked"
+    if _CTX and not isinstance(tgt, ast.Subscript) and tgt is not None:
+        tgt = _CTX[0].norm.xexpr(add, tgt)  # a local alias of the machine's list
     if not isinstance(tgt, ast.Subscript):
         return "append target is not a machine list selected by index"
-    idx = ast.unparse(tgt.slice)
+    idx = _CTX[0].norm.xtext(add, tgt.slice) if _CTX else ast.unparse(tgt.slice)
     if idx != f"{p}.machine_id":
         return f"the machine list is selected by `{idx}`, not by the scheduled operation's machine_id"
     return None
@@ -490,7 +500,7 @@ def _touches_machine_lists(ctx, fi, obj, sched):
                 yield from expand(e.args[0], depth + 1)
 
     for e in expand(obj):
-        if isinstance(e, ast.Attribute) and e.attr in ("schedule", "_schedule"):
+        if isinstance(e, ast.Attribute) and e.attr in ("schedule", schedule_attr(ctx)):
             cls = ctx.res.classes_of(fi, e.value, fi.cls)
             if any(ctx.repo.is_subclass(c, sched.qualname) for c in cls):
                 return True
